@@ -540,6 +540,12 @@ func (mi *muxInstance) search(req *httpprot.Request) *route {
 
 	ip := req.RealIP()
 
+	// The IP filter of the server applies to every request, including
+	// the ones whose result (e.g. 404) is already in the cache.
+	if !allowIP(mi.ipFilter, ip) {
+		return forbidden
+	}
+
 	// The key of the cache is req.Host, req.Method and req.URL.Path,
 	// and if a path is cached, we are sure it does not contain any
 	// headers.
@@ -557,9 +563,11 @@ func (mi *muxInstance) search(req *httpprot.Request) *route {
 		return forbidden
 	}
 
-	if !allowIP(mi.ipFilter, ip) {
-		return forbidden
-	}
+	// passedRuleFilter is true once the request passed the IP filter of a
+	// matched rule without being routed by it. A result found after that
+	// depends on the client IP in a way the IP filter chain of the final
+	// path does not cover, so it must not be put into the cache.
+	passedRuleFilter := false
 
 	for _, host := range mi.rules {
 		if !host.match(req) {
@@ -584,7 +592,7 @@ func (mi *muxInstance) search(req *httpprot.Request) *route {
 			// no path with headers in front of it was skipped, otherwise a
 			// later request with other headers must not get this path.
 			if len(path.headers) == 0 {
-				if !headerMismatch {
+				if !headerMismatch && !passedRuleFilter {
 					r = &route{code: 0, path: path}
 					mi.putRouteToCache(req, r)
 				}
@@ -599,6 +607,10 @@ func (mi *muxInstance) search(req *httpprot.Request) *route {
 
 			return &route{code: 0, path: path}
 		}
+
+		if host.ipFilter != nil {
+			passedRuleFilter = true
+		}
 	}
 
 	if headerMismatch {
@@ -606,11 +618,15 @@ func (mi *muxInstance) search(req *httpprot.Request) *route {
 	}
 
 	if methodMismatch {
-		mi.putRouteToCache(req, methodNotAllowed)
+		if !passedRuleFilter {
+			mi.putRouteToCache(req, methodNotAllowed)
+		}
 		return methodNotAllowed
 	}
 
-	mi.putRouteToCache(req, notFound)
+	if !passedRuleFilter {
+		mi.putRouteToCache(req, notFound)
+	}
 	return notFound
 }
 
